@@ -1,6 +1,6 @@
 (* The recogniser of FragParser.v is sound and complete for the inductive grammar of Grammar.v:
      sp_pattern_sound    : sp_pattern u l = SOk tt r         -> Pattern u l            (any l, both modes)
-     sp_pattern_complete : Pattern u l -> chars_ok l = true -> sp_pattern u l = SOk tt []
+     sp_pattern_complete : Pattern u l -> chars_ok u l = true -> sp_pattern u l = SOk tt []
    (chars_ok is only used to know that the single-character atoms are not `]` `{` `}`, which Annex B admits as
    ExtendedPatternCharacter without u). *)
 From Coq Require Import List NArith Bool Lia PeanoNat.
@@ -22,12 +22,16 @@ Proof.
   destruct (N.eqb_spec c g_plus) as [->|_]; [destruct u; discriminate|].
   destruct (N.eqb_spec c g_question) as [->|_]; [destruct u; discriminate|]. reflexivity.
 Qed.
-Lemma frag_pattern_char u c : frag_char c = true -> pattern_char u c = true -> syntax_character c = false.
+(* the condition under which a single-character atom is a non-syntax character *)
+Definition cok (u : bool) (c : N) : Prop := u = true \/ no_brace c = true.
+Lemma frag_pattern_char u c : cok u c -> pattern_char u c = true -> syntax_character c = false.
 Proof.
-  intros Hf Hp. destruct (syntax_character c) eqn:Es; [|reflexivity]. exfalso.
-  unfold frag_char in Hf. rewrite Es in Hf. cbn [negb andb orb existsb] in Hf.
-  repeat (apply orb_true_iff in Hf; destruct Hf as [Hf|Hf]; [apply N.eqb_eq in Hf; subst c; destruct u; discriminate|]).
-  discriminate.
+  intros [->|Hb] Hp; [cbn in Hp; apply negb_true_iff in Hp; exact Hp|].
+  destruct u; [cbn in Hp; apply negb_true_iff in Hp; exact Hp|].
+  unfold pattern_char, extended_pattern_character in Hp. unfold no_brace in Hb. unfold syntax_character.
+  cbn [existsb] in *. apply negb_true_iff in Hp, Hb.
+  repeat match goal with H : (_ || _)%bool = false |- _ => apply orb_false_iff in H; destruct H end.
+  repeat match goal with Hc : (_ =? _) = false |- _ => rewrite Hc; clear Hc end. reflexivity.
 Qed.
 
 Definition noq (r : list N) : Prop := match r with c :: _ => is_quant_char c = false | [] => True end.
@@ -86,6 +90,13 @@ Proof.
   destruct (N.eqb_spec c g_dollar) as [->|_].
   { intros [= <- <-]. left. split; [reflexivity|]. exists [g_dollar]. split; [reflexivity|]. split; [apply As_dollar|].
     destruct l' as [|c1 [|c2 l2]]; cbn; discriminate. }
+  destruct (N.eqb_spec c g_backslash) as [->|_].
+  { destruct l' as [|x r']; [intros [= <- <-]; right; split; reflexivity|].
+    destruct (assertion_escape x) eqn:Ex; [|intros [= <- <-]; right; split; reflexivity].
+    intros [= <- <-]. left. split; [reflexivity|]. exists [g_backslash; x]. split; [reflexivity|]. split.
+    - unfold assertion_escape in Ex. apply orb_true_iff in Ex. destruct Ex as [Ex|Ex]; apply N.eqb_eq in Ex; subst x;
+        [apply As_word_boundary|apply As_not_word_boundary].
+    - destruct r' as [|c2 l2]; cbn; discriminate. }
   destruct (N.eqb_spec c g_lparen) as [->|_]; [|intros [= <- <-]; right; split; reflexivity].
   destruct l' as [|q r1]; [intros [= <- <-]; right; split; reflexivity|].
   destruct (N.eqb_spec q g_question) as [->|_]; [|intros [= <- <-]; right; split; reflexivity].
@@ -109,15 +120,28 @@ Proof.
       assert (HQ : QuantifiableAssertion u (g_lparen :: g_question :: g_bang :: d ++ [g_rparen])) by (apply QA_neg_lookahead; exact Hd).
       split; [apply As_lookahead; exact HQ|]. cbn. intros Hu. split; [destruct u; [discriminate|reflexivity]|exact HQ].
 Qed.
-Lemma sp_atom_sound l b r : sp_atom sdisj l = SOk b r ->
+Lemma escape_ok_AtomEscape x : escape_ok u x = true -> AtomEscape u [x].
+Proof.
+  unfold escape_ok. intros H. apply orb_true_iff in H. destruct H as [H|H]; [apply orb_true_iff in H; destruct H as [H|H]|].
+  - apply AE_class; exact H.
+  - apply AE_control; exact H.
+  - apply AE_identity; exact H.
+Qed.
+Lemma sp_atom_sound l b r : sp_assertion sdisj l = SOk false l -> sp_atom u sdisj l = SOk b r ->
   (b = true /\ exists w, l = w ++ r /\ Atom u w) \/ (b = false /\ r = l).
 Proof.
+  intros Hna.
   destruct l as [|c l']; cbn [sp_atom]; [intros [= <- <-]; right; split; reflexivity|].
   destruct (syntax_character c) eqn:Es; cbn [negb].
   2:{ intros [= <- <-]. left. split; [reflexivity|]. exists [c]. split; [reflexivity|].
       apply At_char. apply nonsyntax_pattern_char. exact Es. }
   destruct (N.eqb_spec c g_dot) as [->|_].
   { intros [= <- <-]. left. split; [reflexivity|]. exists [g_dot]. split; [reflexivity|apply At_dot]. }
+  destruct (N.eqb_spec c g_backslash) as [->|_].
+  { cbn [sp_escape]. destruct l' as [|x r']; cbn [N.eqb Pos.eqb]; [discriminate|]. destruct (escape_ok u x) eqn:Ex; [|discriminate].
+    intros [= <- <-]. left. split; [reflexivity|]. exists [g_backslash; x]. split; [reflexivity|].
+    apply At_escape; [apply escape_ok_AtomEscape; exact Ex|].
+    cbn [sp_assertion] in Hna. cbn [N.eqb Pos.eqb] in Hna. destruct (assertion_escape x); [discriminate|reflexivity]. }
   destruct (N.eqb_spec c g_lparen) as [->|_]; [|intros [= <- <-]; right; split; reflexivity].
   assert (Hcap : forall l0, sp_group_body sdisj l0 = SOk b r ->
             b = true /\ exists w, g_lparen :: l0 = w ++ r /\ Atom u w).
@@ -143,15 +167,17 @@ Proof.
         apply T_qassertion_quant; assumption.
       * apply sp_quant_false in Eq'. subst r1. exists w. split; [reflexivity|apply T_assertion; exact Hw].
     + intros [= <- <-]. left. split; [reflexivity|]. exists w. split; [reflexivity|apply T_assertion; exact Hw].
-  - destruct (sp_atom sdisj l) as [[|] r1| |] eqn:E; try discriminate.
+  - assert (Hna : sp_assertion sdisj l = SOk false l).
+    { rewrite Ea. f_equal. apply sp_assertion_sound in Ea. destruct Ea as [[Ea _]|[_ Ea]]; [discriminate|exact Ea]. }
+    destruct (sp_atom u sdisj l) as [[|] r1| |] eqn:E; try discriminate.
     + intros [= <- <-]. left. split; [reflexivity|].
-      apply sp_atom_sound in E. destruct E as [[_ [w [-> Hw]]]|[E _]]; [|discriminate].
+      apply (sp_atom_sound _ _ _ Hna) in E. destruct E as [[_ [w [-> Hw]]]|[E _]]; [|discriminate].
       destruct (sp_quant r1) as [[|] r2] eqn:Eq; cbn [snd].
       * apply sp_quant_sound in Eq. destruct Eq as [q [-> Hq]]. exists (w ++ q). split; [rewrite app_assoc; reflexivity|].
         apply T_atom_quant; assumption.
       * apply sp_quant_false in Eq. subst r2. exists w. split; [reflexivity|apply T_atom; exact Hw].
     + intros [= <- <-]. right. split; [reflexivity|].
-      apply sp_atom_sound in E. destruct E as [[E _]|[_ E]]; [discriminate|exact E].
+      apply (sp_atom_sound _ _ _ Hna) in E. destruct E as [[E _]|[_ E]]; [discriminate|exact E].
 Qed.
 Lemma sp_alternative_sound g : forall l r, sp_alternative u sdisj g l = SOk tt r ->
   exists a, l = a ++ r /\ Alternative u a.
@@ -221,6 +247,8 @@ Proof.
   - intros a q _ [IHa Hne] _. destruct a as [|c a']; [contradiction|]. split; [exact IHa|discriminate].
   - split; [cbn; reflexivity|discriminate].
   - split; [cbn; reflexivity|discriminate].
+  - split; [cbn; reflexivity|discriminate].
+  - split; [cbn; reflexivity|discriminate].
   - intros a _ IH. exact IH.
   - intros d _ _. split; [cbn; reflexivity|discriminate].
   - intros d _ _. split; [cbn; reflexivity|discriminate].
@@ -228,6 +256,7 @@ Proof.
   - intros d _ _. split; [cbn; reflexivity|discriminate].
   - intros c Hc. split; [cbn; apply (pattern_char_not_quant u); exact Hc|discriminate].
   - split; [cbn; reflexivity|discriminate].
+  - intros c _ _. split; [cbn; reflexivity|discriminate].
   - intros d _ _. split; [cbn; reflexivity|discriminate].
   - intros d _ _. split; [cbn; reflexivity|discriminate].
 Qed.
@@ -246,38 +275,41 @@ Proof.
   apply (IH _ _ H Hne). lia.
 Qed.
 
-Lemma chars_ok_app a b : chars_ok (a ++ b) = true -> chars_ok a = true /\ chars_ok b = true.
-Proof. unfold chars_ok. rewrite forallb_app. apply andb_true_iff. Qed.
-Lemma chars_ok_cons c l : chars_ok (c :: l) = true -> frag_char c = true /\ chars_ok l = true.
-Proof. unfold chars_ok. cbn [forallb]. apply andb_true_iff. Qed.
+Lemma chars_ok_app u a b : chars_ok u (a ++ b) = true -> chars_ok u a = true /\ chars_ok u b = true.
+Proof. unfold chars_ok. destruct u; [split; reflexivity|]. cbn [orb]. rewrite forallb_app. apply andb_true_iff. Qed.
+Lemma chars_ok_cons u c l : chars_ok u (c :: l) = true -> cok u c /\ chars_ok u l = true.
+Proof.
+  unfold chars_ok, cok. destruct u; [split; [left|]; reflexivity|]. cbn [orb forallb]. intros H.
+  apply andb_true_iff in H. destruct H as [H1 H2]. split; [right; exact H1|exact H2].
+Qed.
 Tactic Notation "chars_tail" hyp(H) integer(n) := do n (apply chars_ok_cons in H; destruct H as [_ H]); apply chars_ok_app in H; destruct H as [H _].
 
 Section Complete.
 Variable u : bool.
 
-Definition P_D (d : list N) : Prop := chars_ok d = true ->
+Definition P_D (d : list N) : Prop := chars_ok u d = true ->
   forall r f, stop r -> (length (d ++ r) <= f)%nat ->
   exists l1, sp_alternative u (sp_disjunction u f) (S (length (d ++ r))) (d ++ r) = SOk tt l1 /\
              (length l1 <= length (d ++ r))%nat /\
              forall g, (length l1 < g)%nat -> sp_bars u (sp_disjunction u f) g l1 = SOk tt r.
-Definition P_A (a : list N) : Prop := chars_ok a = true ->
+Definition P_A (a : list N) : Prop := chars_ok u a = true ->
   forall r f g res, noq r -> (length (a ++ r) <= f)%nat ->
   sp_alternative u (sp_disjunction u f) g r = res -> res <> SFuel ->
   sp_alternative u (sp_disjunction u f) (g + length a) (a ++ r) = res.
-Definition P_T (t : list N) : Prop := chars_ok t = true ->
+Definition P_T (t : list N) : Prop := chars_ok u t = true ->
   forall r f, noq r -> (length (t ++ r) <= f)%nat -> sp_term u (sp_disjunction u f) (t ++ r) = SOk true r.
-Definition P_As (w : list N) : Prop := chars_ok w = true ->
+Definition P_As (w : list N) : Prop := chars_ok u w = true ->
   forall r f, (length (w ++ r) <= f)%nat -> sp_assertion (sp_disjunction u f) (w ++ r) = SOk true r.
 (* a look-ahead: recognised as an assertion, and quantifiable exactly without u *)
-Definition P_QA (w : list N) : Prop := chars_ok w = true ->
+Definition P_QA (w : list N) : Prop := chars_ok u w = true ->
   forall r f, (length (w ++ r) <= f)%nat ->
   sp_assertion (sp_disjunction u f) (w ++ r) = SOk true r /\ quantifiable u (w ++ r) = negb u.
 (* an atom: not an assertion, recognised as an atom *)
-Definition P_At (w : list N) : Prop := chars_ok w = true ->
+Definition P_At (w : list N) : Prop := chars_ok u w = true ->
   forall r f, (length (w ++ r) <= f)%nat ->
-  sp_atom (sp_disjunction u f) (w ++ r) = SOk true r /\ sp_assertion (sp_disjunction u f) (w ++ r) = SOk false (w ++ r).
+  sp_atom u (sp_disjunction u f) (w ++ r) = SOk true r /\ sp_assertion (sp_disjunction u f) (w ++ r) = SOk false (w ++ r).
 
-Lemma P_D_disjunction d : P_D d -> chars_ok d = true -> forall r f, stop r -> (length (d ++ r) < f)%nat ->
+Lemma P_D_disjunction d : P_D d -> chars_ok u d = true -> forall r f, stop r -> (length (d ++ r) < f)%nat ->
   sp_disjunction u f (d ++ r) = SOk tt r.
 Proof.
   intros HP Hf r f Hs Hlen. destruct f as [|f]; [lia|]. cbn [sp_disjunction]. unfold sp_disjunction_body.
@@ -285,7 +317,7 @@ Proof.
   rewrite (Hb (S (length l1)) ltac:(lia)). rewrite (sp_quant_noq r (stop_noq r Hs)). reflexivity.
 Qed.
 (* `(x` D `)` rest, entered after the prefix: the body of any group or look-around *)
-Lemma P_D_group_body d : P_D d -> chars_ok d = true -> forall r f, (S (length (d ++ g_rparen :: r)) <= f)%nat ->
+Lemma P_D_group_body d : P_D d -> chars_ok u d = true -> forall r f, (S (length (d ++ g_rparen :: r)) <= f)%nat ->
   sp_group_body (sp_disjunction u f) (d ++ g_rparen :: r) = SOk true r.
 Proof.
   intros HP Hf r f Hlen. unfold sp_group_body. rewrite (P_D_disjunction d HP Hf (g_rparen :: r) f).
@@ -295,12 +327,13 @@ Proof.
 Qed.
 
 Lemma alt_stops_at f r : (exists c r', r = c :: r' /\ syntax_character c = true /\ c <> g_dot /\ c <> g_lparen /\
-                                       c <> g_caret /\ c <> g_dollar) \/ r = [] ->
+                                       c <> g_caret /\ c <> g_dollar /\ c <> g_backslash) \/ r = [] ->
   sp_alternative u (sp_disjunction u f) 1 r = SOk tt r.
 Proof.
-  intros [[c [r' [-> [Hs [Hd [Hl [Hc Hdo]]]]]]]| ->]; [|reflexivity].
+  intros [[c [r' [-> [Hs [Hd [Hl [Hc [Hdo Hb]]]]]]]]| ->]; [|reflexivity].
   cbn [sp_alternative]. unfold sp_term. cbn [sp_assertion sp_atom]. rewrite Hs. cbn [negb].
   destruct (N.eqb_spec c g_caret); [contradiction|]. destruct (N.eqb_spec c g_dollar); [contradiction|].
+  destruct (N.eqb_spec c g_backslash); [contradiction|].
   destruct (N.eqb_spec c g_dot); [contradiction|]. destruct (N.eqb_spec c g_lparen); [contradiction|]. reflexivity.
 Qed.
 
@@ -325,7 +358,7 @@ Proof.
       destruct Hs as [->|[r' ->]]; [reflexivity|]. reflexivity.
   - (* D_bar *) intros a d Ha IHa Hd IHd Hf r f Hs Hlen.
     apply chars_ok_app in Hf. destruct Hf as [Hfa Hfd].
-    assert (Hfd' : chars_ok d = true) by (apply chars_ok_cons in Hfd; apply Hfd).
+    assert (Hfd' : chars_ok u d = true) by (apply chars_ok_cons in Hfd; apply Hfd).
     rewrite <- app_assoc in *. cbn [app] in *.
     exists (g_bar :: d ++ r). split; [|split].
     + assert (E : sp_alternative u (sp_disjunction u f) 1 (g_bar :: d ++ r) = SOk tt (g_bar :: d ++ r)).
@@ -372,6 +405,8 @@ Proof.
     rewrite E. reflexivity.
   - (* As_caret *) intros _ r f _. reflexivity.
   - (* As_dollar *) intros _ r f _. reflexivity.
+  - (* As_word_boundary *) intros _ r f _. reflexivity.
+  - (* As_not_word_boundary *) intros _ r f _. reflexivity.
   - (* As_lookahead *) intros a Ha IHa Hf r f Hlen. apply (IHa Hf r f Hlen).
   - (* As_lookbehind *) intros d Hd IHd Hf r f Hlen. chars_tail Hf 4.
     cbn [app sp_assertion]. rewrite app_comm_cons'. cbn [N.eqb Pos.eqb is_eq_or_bang orb].
@@ -391,8 +426,14 @@ Proof.
     apply chars_ok_cons in Hf. destruct Hf as [Hf _].
     pose proof (frag_pattern_char u c Hf Hc) as Hs. rewrite Hs. cbn [negb]. split; [reflexivity|].
     destruct (N.eqb_spec c g_caret) as [->|_]; [discriminate|]. destruct (N.eqb_spec c g_dollar) as [->|_]; [discriminate|].
+    destruct (N.eqb_spec c g_backslash) as [->|_]; [discriminate|].
     destruct (N.eqb_spec c g_lparen) as [->|_]; [discriminate|]. reflexivity.
   - (* At_dot *) intros _ r f _. split; reflexivity.
+  - (* At_escape *) intros c He Hne _ r f _. cbn [app sp_atom sp_assertion sp_escape]. cbn [N.eqb Pos.eqb negb syntax_character existsb orb].
+    rewrite Hne. split; [|reflexivity].
+    assert (Hok : escape_ok u c = true).
+    { unfold escape_ok. inversion He as [c0 H0|c0 H0|c0 H0]; subst; rewrite H0; rewrite ?orb_true_r; reflexivity. }
+    rewrite Hok. reflexivity.
   - (* At_group *) intros d Hd IHd Hf r f Hlen. chars_tail Hf 1.
     pose proof (proj1 (grammar_heads u) d Hd) as Hqd.
     cbn [app sp_atom sp_assertion]. rewrite app_comm_cons'. cbn [N.eqb Pos.eqb negb syntax_character existsb orb].
@@ -406,7 +447,7 @@ Proof.
     apply (P_D_group_body d IHd Hf). cbn [length app] in Hlen. rewrite app_comm_cons' in Hlen. cbn [length] in *. lia.
 Qed.
 
-Theorem sp_pattern_complete l : Pattern u l -> chars_ok l = true -> sp_pattern u l = SOk tt [].
+Theorem sp_pattern_complete l : Pattern u l -> chars_ok u l = true -> sp_pattern u l = SOk tt [].
 Proof.
   intros Hp Hf. unfold sp_pattern.
   pose proof (P_D_disjunction l (proj1 completeness_mut l Hp) Hf [] (S (length l)) (or_introl eq_refl)) as H.
@@ -414,7 +455,7 @@ Proof.
 Qed.
 End Complete.
 
-Theorem recognises_iff_Pattern u l : chars_ok l = true -> (recognises u l = true <-> Pattern u l).
+Theorem recognises_iff_Pattern u l : chars_ok u l = true -> (recognises u l = true <-> Pattern u l).
 Proof.
   intros Hf. unfold recognises. split.
   - destruct (sp_pattern u l) as [a r| |] eqn:E; try discriminate. intros _. exact (sp_pattern_sound u l a r E).
